@@ -243,6 +243,7 @@ type Node struct {
 	apiSeq       int
 
 	// fault injection for callbacks
+	NilBlocks    int                // number of upcoming NewBlockFromContext / NewPreBlockFromContext calls that return nil (fuzzing only)
 	FailPreBlock int                // number of upcoming ProcessPreBlock calls to fail
 	FailBlock    int                // number of upcoming ProcessBlock calls to fail (anti-MEV heights only)
 	RejectBlocks map[[2]uint32]bool // (height, view) whose block this node's verifier rejects
@@ -528,6 +529,12 @@ func (n *Node) NewInstance() error {
 		}),
 		dbft.WithNewBlockFromContext[H](func(ctx *dbft.Context[H]) dbft.Block[H] {
 			var b *Block
+			if n.NilBlocks > 0 {
+				// like the reference newBlockFromContext, which answers nil when it cannot build a block
+				n.NilBlocks--
+				c.emit(&Event{Node: n.ID, Kind: KNewBlock, Note: "nil"})
+				return nil
+			}
 			if n.amevAt(ctx.BlockIndex) {
 				pb, _ := ctx.PreBlock().(*PreBlock)
 				if pb == nil {
@@ -571,6 +578,10 @@ func (n *Node) NewInstance() error {
 			return l
 		}),
 		dbft.WithVerifyBlock[H](func(b dbft.Block[H]) bool {
+			if b == nil {
+				c.emit(&Event{Node: n.ID, Kind: KVerifyBlock, Note: "nil", OK: false})
+				return false
+			}
 			bb := b.(*Block)
 			ok := n.txsValid(b.Transactions()) && !n.RejectBlocks[[2]uint32{n.D.BlockIndex, uint32(n.D.ViewNumber)}]
 			c.emit(&Event{Node: n.ID, Kind: KVerifyBlock, Blk: bb, OK: ok})
@@ -632,6 +643,11 @@ func (n *Node) NewInstance() error {
 	if cfg.AMEV >= 0 {
 		opts = append(opts,
 			dbft.WithNewPreBlockFromContext[H](func(ctx *dbft.Context[H]) dbft.PreBlock[H] {
+				if n.NilBlocks > 0 {
+					n.NilBlocks--
+					c.emit(&Event{Node: n.ID, Kind: KNewPreBlock, Note: "nil"})
+					return nil
+				}
 				pb := NewPreBlock(ctx.BlockIndex, ctx.PrevHash, ctx.Timestamp, ctx.Nonce, ctx.TransactionHashes, nodeObs{n})
 				c.emit(&Event{Node: n.ID, Kind: KNewPreBlock, PB: pb})
 				return pb
@@ -648,6 +664,10 @@ func (n *Node) NewInstance() error {
 			}),
 			dbft.WithNewPreCommit[H](func(d []byte) dbft.PreCommit { return &PreCommitB{D: append([]byte(nil), d...)} }),
 			dbft.WithVerifyPreBlock[H](func(b dbft.PreBlock[H]) bool {
+				if b == nil {
+					c.emit(&Event{Node: n.ID, Kind: KVerifyPreBlock, Note: "nil", OK: false})
+					return false
+				}
 				pb := b.(*PreBlock)
 				ok := n.txsValid(b.Transactions()) && !n.RejectBlocks[[2]uint32{n.D.BlockIndex, uint32(n.D.ViewNumber)}]
 				c.emit(&Event{Node: n.ID, Kind: KVerifyPreBlock, PB: pb, OK: ok})
